@@ -45,7 +45,7 @@ def run(ctx):
     md = Multidecoder()
     inputs = list(MALFORMED) + [b"junk " + pe_blob(0x5000) + b" tail", pe_blob(0x300) + b"\x00" * 0x100, b"zz" + pe_blob(0x200)[:0x90]]
     inputs += corpus_gen.gen_inputs(ctx.rng, ctx.budget(1500, 30000))
-    compare_budget = ctx.budget(120, 2500)
+    compare_budget = ctx.budget(90, 2500)
     args, outs = [], {}
     for i, data in enumerate(inputs):
         if len(data) > 20000:
@@ -70,7 +70,7 @@ def run(ctx):
             ctx.nontrivial.add(("scan", data, depth))
         for m in views_total(tree):
             ctx.violation("views", [depth, data], m)
-        if len(args) < compare_budget and len(data) < 1500:
+        if len(args) < compare_budget and len(data) < (900 if not ctx.thorough else 1500):
             pe_t, xor_t = rec.tables()
             a = [depth, data, pe_t, xor_t]
             args.append(a)
